@@ -981,7 +981,7 @@ func (fr *Frame) instr(b *ssa.BasicBlock, in ssa.Instruction, st *State, g strin
 		hv := vc.mapHeapVar(m)
 		ms := vc.mapSort(m)
 		ks := vc.sortOf(m.Key())
-		empty := fmt.Sprintf("(mk_%s ((as const (Array %s Bool)) false) ((as const (Array %s %s)) %s) %s)", ms, ks, ks, vc.sortOf(m.Elem()), vc.zero(m.Elem()), vc.intLitN(0, types.Typ[types.Int]))
+		empty := fmt.Sprintf("(mk_%s ((as const (Array %s Bool)) false) %s %s)", ms, ks, vc.constArray(fmt.Sprintf("(Array %s %s)", ks, vc.sortOf(m.Elem())), vc.zero(m.Elem())), vc.intLitN(0, types.Typ[types.Int]))
 		st = fr.setVar(st, hv, fmt.Sprintf("(store %s %s %s)", st.get(hv), r, empty))
 		fr.def(x, r)
 		return st
@@ -1511,7 +1511,7 @@ func (fr *Frame) makeSlice(st *State, g string, x *ssa.MakeSlice) *State {
 	st, r = fr.alloc(st)
 	et := x.Type().Underlying().(*types.Slice).Elem()
 	hv := vc.arrHeapVar(et)
-	zeroArr := fmt.Sprintf("((as const (Array %s %s)) %s)", vc.goInt(), vc.sortOf(et), vc.zero(et))
+	zeroArr := vc.constArray(fmt.Sprintf("(Array %s %s)", vc.goInt(), vc.sortOf(et)), vc.zero(et))
 	st = fr.setVar(st, hv, fmt.Sprintf("(store %s %s %s)", st.get(hv), r, zeroArr))
 	fr.def(x, fmt.Sprintf("(mk-slice %s %s %s %s)", r, z, ln, cp))
 	fr.top().allocSizes = append(fr.top().allocSizes, allocSite{g, ln, cp, x.Pos()})
